@@ -239,6 +239,22 @@ def gen_case(ch: Chooser, excl=()):
                 b.files.append({"path": f"src/{m['name']}_{deep['name']}.f90", "form": "free", "units": [deep], "doc": None})
                 b.refs.append({"scope": [f"{m['name']}:{deep['name']}"], "ifbody": None, "slot": "subparent",
                                "at": deep["name"], "name": sname, "expect": f"{m['name']}:{sname}", "multi": same})
+                if ch.bool(1, 2) and "submodule_chain_entities" not in b.excl:
+                    # entities of the intermediate submodule, known in its child: a separate module procedure declared
+                    # in the one and implemented in the other, and a helper procedure called from there
+                    dw, hp = f"deepwork{i}", f"subhelper{i}"
+                    sm["decls"].append({"d": "interface", "form": "explicit", "doc": None, "bodies": [
+                        {"k": "subroutine", "name": dw, "args": [], "prefix": ["module"], "decls": [], "doc": None}]})
+                    sm["procs"].append(b.mksub(hp))
+                    dform = ch.choice(["modproc", "subroutine"])
+                    deep["procs"].append({"k": dform, "name": dw, "args": [], "prefix": ["module"] if dform == "subroutine" else [],
+                                          "decls": [], "exec": [f"call {hp}()"], "procs": [], "uses": [], "doc": None,
+                                          "implicit_none": dform == "subroutine"})
+                    b.refs.append({"scope": [f"{m['name']}:{deep['name']}"], "ifbody": None, "slot": "mpiface", "at": dw,
+                                   "name": dw, "expect": f"{sname}/{dw}", "multi": True, "fixed": True})
+                    b.refs.append({"scope": [f"{m['name']}:{deep['name']}", dw], "ifbody": None, "slot": "call", "at": hp,
+                                   "name": hp, "expect": f"{sname}/{hp}", "multi": True, "fixed": True})
+                    b.feats.add("submodule:chain-entities")
             b.feats.add("submodule" + (":same-name" if same else ""))
             if ch.bool(1, 3) and "orphan_submodule" not in b.excl:
                 # the parent submodule is declared nowhere in the project (its file is not among the sources):
